@@ -194,8 +194,13 @@ def c10(ctx, api):
     acc.add('GenOps: all ordered pairs of the 18 operator spellings%s x %d documents; operator triples (%s) x 256 documents'
             % (' with every unary prefix placement' if thorough else ' (+ every single operator with unary prefixes)',
                1000 if thorough else 343, '15^3, one spelling per operator' if thorough else '6^3, one operator per precedence level'), st, summ)
+    lens = '{2, 3, 4, 15, 16, 17, 31, 32, 33, 63, 64, 65, 127, 128, 129, 257}' if thorough else '{2, 3, 31, 32, 33, 65}'
+    st, summ = api['run_tlc_to_harness'](ctx, 'chain', 'GenChain', cfg(constants={'Emit': 'TRUE', 'Prop': '"C10"', 'Lens': lens}), timeout=1500)
+    acc.add('GenChain: runs of %s operands joined by one operator (18 spellings) or two alternating operators of one level (14 pairs), '
+            'against the left-nested parenthesised text, on 5 small documents (outcome from Eval) and 8 documents where the grouping '
+            'changes rounding (float64 1e16 + 1, 34-digit decimals; the two texts must agree)' % lens, st, summ)
     return acc.result(RULE_PINNED + '; each case also carries the fully parenthesised text, which must give the same result on the real code',
-                      extra={'model_checks': ['GroupsByTable', 'UnaryTighterThanBinary', 'ParenNeutral', 'AllParse']})
+                      extra={'model_checks': ['GroupsByTable', 'UnaryTighterThanBinary', 'ParenNeutral', 'AllParse', 'ChainLeftNested', 'SameOutcomeInModel']})
 
 
 # --------------------------------------------------------------------- C12
